@@ -431,6 +431,24 @@ def cookie_rotate_stream(monitor, quick_n=200, thorough_n=6000):
                   opkind=lambda l: l.split()[0] + (":" + l.split("cookie=")[1].split(":")[0].split()[0] if "cookie=" in l else ""))
 
 
+def _rand_ip(rng):
+    """addresses for reverse lookups: a few fixed ones (so that cached and concurrent lookups of one address occur) and
+    random ones with octets / nibbles over the whole range"""
+    import ipaddress
+    r = rng.random()
+    if r < 0.35:
+        return rng.choice(["10.1.2.3", "192.0.2.7", "2001:db8::5"])
+    if r < 0.7:
+        return ".".join(str(rng.choice([0, 1, 9, 10, 99, 100, 127, 128, 200, 255, rng.randint(0, 255)])) for _ in range(4))
+    if r < 0.8:
+        return str(ipaddress.ip_address(rng.getrandbits(128)))
+    b = bytearray(16)
+    b[0:2] = rng.choice([b"\x20\x01", b"\xfe\x80", b"\xfd\x00", b"\x00\x00"])
+    for _ in range(rng.randint(1, 5)):
+        b[rng.randint(2, 15)] = rng.choice([1, 0x0a, 0xa0, 0xff, 0x10, rng.randint(0, 255)])
+    return str(ipaddress.ip_address(bytes(b)))
+
+
 def gen_lookups_case(rng):
     """the address-lookup front ends that the channel model does not cover (getaddrinfo with RFC 6724 sorting, which
     probes source addresses with throw-away sockets; gethostbyname; gethostbyaddr; getnameinfo): monitors only"""
@@ -449,7 +467,7 @@ def gen_lookups_case(rng):
             elif kind == "ghbn":
                 ops.append("req tok=%d kind=ghbn name=%s fam=%d" % (tok, rng.choice(NAMES[:5]), rng.choice([0, 2, 10])))
             else:
-                ops.append("req tok=%d kind=%s name=%s" % (tok, kind, rng.choice(["10.1.2.3", "192.0.2.7", "2001:db8::5"] if kind == "ghba" else ["10.1.2.3", "192.0.2.7"])))
+                ops.append("req tok=%d kind=%s name=%s" % (tok, kind, _rand_ip(rng)))
         elif r < 0.75:
             kind = rng.choice(["noerror", "noerror", "noerror", "nodata", "nxdomain", "servfail"])
             ops.append("reply tx=-%d kind=%s%s" % (rng.choice([1, 1, 2]), kind, (" an=%d ttl=30" % rng.choice([1, 2, 3, 4])) if kind == "noerror" else ""))
